@@ -87,6 +87,9 @@ func TokenDFS(a Alphabet, maxLen int, shard, nshards int, visit Visit) {
 	toks := make([]string, 0, maxLen)
 	var rec func()
 	rec = func() {
+		if halted() {
+			return
+		}
 		text := []byte(strings.Join(toks, " "))
 		if !visit(toks, text) || len(toks) >= maxLen {
 			return
@@ -137,10 +140,34 @@ var ByteAlphabet = []byte{'a', '1', '0', '"', '\'', '\\', '#', '\n', '\r', ' ', 
 
 // Bytes enumerates all byte strings of length 1..maxLen over ByteAlphabet (sharded by
 // the first two bytes).
+// Stop, when set, is polled by the enumerators (every 256 visits); once it answers true
+// the enumeration is abandoned. Checks set it to their deadline test.
+var Stop func() bool
+
+var stopTick int
+var stopped bool
+
+func halted() bool {
+	if stopped {
+		return true
+	}
+	stopTick++
+	if Stop != nil && stopTick&255 == 0 && Stop() {
+		stopped = true
+	}
+	return stopped
+}
+
+// ResetStop re-arms the enumerators (a new check run in the same process).
+func ResetStop() { stopped, stopTick = false, 0 }
+
 func Bytes(maxLen, shard, nshards int, visit func(text []byte)) {
 	buf := make([]byte, 0, maxLen)
 	var rec func()
 	rec = func() {
+		if halted() {
+			return
+		}
 		visit(buf)
 		if len(buf) >= maxLen {
 			return
@@ -180,6 +207,9 @@ func Units(maxLen, shard, nshards int, visit func(text []byte)) {
 	var parts []string
 	var rec func()
 	rec = func() {
+		if halted() {
+			return
+		}
 		visit([]byte(strings.Join(parts, "")))
 		if len(parts) >= maxLen {
 			return
